@@ -55,7 +55,11 @@ MANIFEST = {
             "truthiness test of a value in the loader functions. The rig enumerates the same grid on the real loader, evaluates the "
             "regenerated translation against the specification on it (counter-model -> scenario file -> replay) and declares every "
             "option of every registered software schema / node schema key / user / file / ACL rule / route / link / game option / "
-            "agent setting with each falsy value its schema accepts, without and with the competing sources. Tie: Gen/Config.lean (site inventory; constants; system-software, firewall-ACL, frequency tables; "
+            "agent setting with each falsy value its schema accepts, without and with the competing sources. The node keys "
+            "revealed_to_red / start_up_countdown / shut_down_countdown / is_resetting are part of build = declared (NodeFlags; "
+            "node-state family on all seven node types incl. transitional states with countdowns). Variants are also compared by "
+            "canonical describe_state(); outside the Lean model, as declared-vs-built oracles only: custom observation-space component "
+            "labels, shared-reward wiring and reward calculation order. Tie: Gen/Config.lean (site inventory; constants; system-software, firewall-ACL, frequency tables; "
             "assignment table and constructor chains of every software class; every key of the defaults section with the statement "
             "that applies it; the keys the eight ACL rule loops read (both address spellings, each wildcard mask from its own key); "
             "wireless-router ports and sections; scheduler shape and freshness; no loader consumes its argument; install/uninstall "
